@@ -5,6 +5,7 @@ import json, shutil, sys, os, re
 from pathlib import Path
 i, src, result = sys.argv[1], Path(sys.argv[2]), sys.argv[3]
 note = sys.argv[4] if len(sys.argv) > 4 else ""
+prop = i.split("-")[0]  # "C03-2" = second independent change for C03
 dst = Path("/verif/seeded") / i
 dst.mkdir(parents=True, exist_ok=True)
 shutil.copy(src / "patch.diff", dst / "patch.diff")
@@ -13,7 +14,7 @@ meta = json.loads((src / "meta.json").read_text()) if (src / "meta.json").exists
 log = Path(f"/var/tmp/seeded-{i}.log")
 confirm = log.read_text() if log.exists() else "(confirmation run pending)"
 meta = {
-    "breaks_property": i,
+    "breaks_property": prop,
     "author": "fresh sub-agent given only the property text and its own worktree (nothing from /verif)",
     "summary": meta.get("summary"),
     "needs_to_manifest": meta.get("needs"),
@@ -26,7 +27,7 @@ meta = {
         "log": confirm[-1500:],
     },
     "check_run": {
-        "how": f"git -C /repo apply seeded/{i}/patch.diff; /venv/bin/python run.py {i} --tier quick; git -C /repo checkout -- .",
+        "how": f"git -C /repo apply seeded/{i}/patch.diff; /venv/bin/python run.py {prop} --tier quick; git -C /repo checkout -- .",
         "result": result,
         "note": note,
     },
